@@ -284,6 +284,13 @@ pub struct Img {
     /// simply live at an odd address.
     #[serde(default)]
     pub misalign: u8,
+    /// cropped SOURCE views only (`CropRef`, `CropNew`, `DynCrop`): hand these (left, top,
+    /// width, height) to the view's constructor instead of the geometry above - values a
+    /// safe caller may pass, including ones whose sum wraps around u32. The constructor
+    /// either answers a `CropBoxError` (the operation's outcome) or accepts, and then the
+    /// operation runs on whatever view it built.
+    #[serde(default)]
+    pub view_override: Option<[u32; 4]>,
 }
 
 #[derive(Clone, Debug, PartialEq, Serialize, Deserialize)]
